@@ -121,6 +121,16 @@ def make(i, base_seed, tier):
             if free:
                 msgs.insert(xr.randint(0, len(msgs)), {"kind": "failed_write", "src": a_, "dst": xr.choice(free), "len": xr.randint(0, 24), "type": xr.randint(0, 127),
                                                        "seed": xr.getrandbits(20), "api": "write"})
+    xt = stream(seed, "tweak")
+    # (250 kbps is left out: the chip model lets a radio whose MCU leaves RX mode during a 300 us auto-ACK start its own packet before
+    # that ACK has ended - a limit of the model, DESIGN.md section 8 - so only 1 and 2 Mbps networks are generated)
+    rate = xt.choice([1, 1, 1, 2]) if not lossy else 1
+    if not lossy and xt.random() < 0.3:
+        # the application of some node touches its radio at run time between messages - things that change nothing about the network:
+        # a power-saving nap, another PA level, its interrupt mask, re-assigning the channel / retry setup it already has
+        for _ in range(xt.randint(1, 2)):
+            msgs.insert(xt.randint(0, len(msgs)), {"kind": "tweak", "node": xt.choice(topo), "what": xt.choice(["nap", "nap", "pa_level", "pa_level", "irq", "channel", "retries"]),
+                                                   "v": xt.choice([-18, -12, -6, 0]), "ms": xt.choice([0, 1, 5])})
     backlog = None
     if not lossy and len(topo) >= 3 and xr.random() < 0.15:
         # a destination whose application reads late: several messages from different origins wait in its queue - with coinciding
@@ -136,7 +146,7 @@ def make(i, base_seed, tier):
             if nd["addr"] == d_:
                 nd["cls"] = "net"
         backlog = {"dst": d_, "msgs": [{"src": a, "len": xr.choice([0, 5, 24, 30]) if frag else xr.randint(0, 24), "type": ty_, "seed": xr.getrandbits(20)} for a in srcs]}
-    direct_long = [m for m in msgs if m.get("kind") != "failed_write" and len(netref.path(m["src"], m["dst"])) == 2 and m["len"] > 72]
+    direct_long = [m for m in msgs if m.get("kind") is None and len(netref.path(m["src"], m["dst"])) == 2 and m["len"] > 72]
     if not lossy and direct_long and xr.random() < 0.6:
         # explicit fault: the destination of a direct message of >= 4 fragments is busy elsewhere for 30-70 ms right after its radio
         # stored one of the first fragments (the radio goes on acknowledging until its 3-level RX FIFO is full, then the sender's
@@ -149,7 +159,7 @@ def make(i, base_seed, tier):
         ar = stream(seed, "air")
         p = rng.choice([0.02, 0.05, 0.1, 0.2])
         faults = [{"n": n} for n in range(600) if ar.random() < p]
-    return {"seed": seed, "nodes": nodes, "msgs": msgs, "frag": frag, "lossy": lossy, "faults": faults, "stall_on_rx": stall, "backlog": backlog,
+    return {"seed": seed, "rate": rate, "nodes": nodes, "msgs": msgs, "frag": frag, "lossy": lossy, "faults": faults, "stall_on_rx": stall, "backlog": backlog,
             "tx_timeout": rng.choice([25, 25, 50]), "route_timeout": rng.choice([75, 75, 150])}
 
 
@@ -188,6 +198,9 @@ def build(scn, w, net):
                 node.node_address = node.node_address
             node.tx_timeout = scn.get("tx_timeout", 25)
             node.route_timeout = scn.get("route_timeout", 75)
+            if scn.get("rate", 1) != 1:
+                node.data_rate = scn["rate"]      # the whole network runs at 2 Mbps / 250 kbps
+                w.sim.count("network_data_rate_%d" % scn["rate"])
             if not scn.get("frag", True):
                 node.fragmentation = False
         nc = net.add(nd["addr"], nd["cls"], nd["addr"] if nd.get("first_addr") is None else nd["first_addr"], knobs=nd["knobs"], plus=nd.get("plus", True),
@@ -227,6 +240,30 @@ def _run(scn, w, net, res):
                 net.wait_quiet(quiet=5 * MS, timeout=2000 * MS)
                 if cf.done and cf.exc is None and cf.result is False:
                     sim.count("write_to_absent_neighbour_failed")
+            continue
+        if m.get("kind") == "tweak":
+            if m["node"] in addrs:
+                def tweak(node, m=m):
+                    import circuitpython_nrf24l01.network.mixins as mx
+                    if m["what"] == "nap":
+                        node.power = False
+                        if m["ms"]:
+                            mx.time.sleep(m["ms"] / 1000)
+                        node.power = True
+                    elif m["what"] == "pa_level":
+                        node.pa_level = m["v"]
+                    elif m["what"] == "irq":
+                        node.interrupt_config(True, False, bool(m["ms"]))
+                    elif m["what"] == "channel":
+                        node.channel = node.channel
+                    else:
+                        node.set_auto_retries(*node.get_auto_retries())
+                ct = net.call(m["node"], "tweak", tweak, timeout=5000 * MS)
+                if ct.done and ct.exc is not None:
+                    res.add("delivered", {"kind": "attribute_raised", "what": m["what"], "exc": type(ct.exc).__name__}, "%s on node %o raised %r\n%s" % (m["what"], m["node"], ct.exc, ct.tb))
+                    return
+                sim.advance(2 * MS)      # (the radio's power-up time: the application knows it has to wait before it expects traffic)
+                sim.count("radio_touched_at_run_time")
             continue
         if m["src"] not in addrs or m["dst"] not in addrs or m["src"] == m["dst"]:
             continue
@@ -327,4 +364,4 @@ def _run(scn, w, net, res):
         for (t, e, tb) in nc.update_exc:
             res.add("delivered", {"kind": "update_raised", "exc": type(e).__name__}, "update() on node %o raised %r\n%s" % (k, e, tb))
     res.sample = {"topology": [oct(nd["addr"]) for nd in scn["nodes"]], "routers": [oct(nd["addr"]) for nd in scn["nodes"] if nd["cls"] == "router"],
-                  "msgs": [(oct(m["src"]), oct(m["dst"]), m["len"], m["type"]) for m in scn["msgs"]], "lossy": lossy, "frag": scn.get("frag")}
+                  "msgs": [(oct(m["src"]), oct(m["dst"]), m["len"], m["type"]) for m in scn["msgs"] if m.get("kind") != "tweak"] + [(m["what"], oct(m["node"])) for m in scn["msgs"] if m.get("kind") == "tweak"], "lossy": lossy, "frag": scn.get("frag")}
